@@ -309,6 +309,17 @@ def leg_t(rep, work, spec, name, cfg, traces, decode=None, timeout=1800, heap="8
             rep.violation(dict(leg="T", spec=spec, cfg=name, why="a recorded observation has a shape the specification "
                                "never produces (TLC could not compare it)", detail=str(e)[-1500:], trace=traces[0][:5]), tag="T")
             return {}
+        if "TLC was evaluating the nested" in str(e):
+            # TLC could not even EVALUATE the specification's action on a recorded step (an index or key the observation
+            # carries lies outside what the specification's state holds): the recorded execution left the vocabulary of
+            # the specification in the middle of a trace - a divergence, localised by the trace id of the last state
+            import re as _re
+            m = _re.findall(r"\btid = (\d+)", str(e))
+            tid = int(m[-1]) if m else 1
+            rep.violation(dict(leg="T", spec=spec, cfg=name, why="the specification's action cannot be evaluated on a recorded "
+                               "step: the observation refers to something the specification's state does not hold",
+                               detail=str(e)[-1500:], trace=traces[min(tid, len(traces)) - 1]), tag="T")
+            return {}
         raise
     verdicts = {}
     for text in tlc_values(res.out, ('<<"ACCEPT"', '<<"MISMATCH"', '<<"STUCK"')):
